@@ -213,6 +213,35 @@ SPECS["C10"] = dict(
                 files={"harness/router/zz_verif_c10cfg_test.go": "app/router/zz_verif_c10cfg_test.go"}, budget={"quick": 120, "thorough": 120})],
 )
 
+SPECS["C08"] = dict(
+    level="model_checking",
+    engine="E3 evx",
+    state_based=True,
+    technique="exhaustive enumeration of timed histories (TTL vector x rcode x TC x max ttl x probe instant) on the real router + otter cache under an exact virtual clock",
+    claim="For every upstream reply shape (rcode, TC, record TTLs from the alphabet incl. 0 and 2^32-1, configured maximum) and every probe instant around the second boundaries and the "
+          "end of the lifetime: a response served without a new upstream exchange carries aged TTLs within [1, upstream - floor(elapsed)], is never served at or after lifetime + 2 s, "
+          "TC replies and failed exchanges are never cached, and a negative or failed refresh never displaces a live positive entry.",
+    trusted="memory backend only (the redis backend needs a server); otter and its 1 s clock are exercised as-is inside the bubble.",
+    rule="see evidence rule written by the harness",
+    assumptions=["the cache clock granularity allowance is 2 s as the property states"],
+    parts=[router_part("ttl", "TestVerifC08", ["zz_verif_c08_test.go", "zz_verif_c03_test.go"])],
+)
+
+SPECS["C07"] = dict(
+    level="model_checking",
+    engine="E3 evx + E1 enum (+E2 sched for the memory cache)",
+    state_based=True,
+    technique="exhaustive enumeration of single-component query variants, upstream response shapes, range files and timed repeat queries on the real router+cache; controlled-scheduler exploration of the memory cache",
+    claim="Queries that differ in exactly one of name (beyond case), class, type or client group never share a cache entry and queries that differ only in case or in the address within a "
+          "group always do, independently of the contents of recycled buffers; a cached response equals the relayed one except id and TTLs; the group label equals a linear scan for every "
+          "range file over the address universe; a repeat with more than 1 s of lifetime left is a hit.",
+    trusted="scripted upstream; tcp seam; memory backend only.",
+    rule="see evidence rule written by the harness",
+    assumptions=["ample cache capacity for the hit guarantee"],
+    parts=[router_part("cache", "TestVerifC07", ["zz_verif_c07_test.go", "zz_verif_c08_test.go", "zz_verif_c03_test.go"],
+                       params={"quick": {"MAXREC": 2, "MAXRANGES": 2}, "thorough": {"MAXREC": 3, "MAXRANGES": 3}})],
+)
+
 
 # --------------------------------------------------------------------------------------------
 # Properties not (yet) claimed. Kept current: every property without a SPECS entry must be here.
